@@ -905,4 +905,110 @@ theorem evalPat_safe (fo : FOps) : ∀ (e : Expr) (vars : List (String × Value)
   | .range _ _ _, _ => by simp [evalPat]
 
 
+/-! ## C11: the comparator of `sort` is a total preorder -/
+
+theorem strCmp_rev (a b : String) : strCmp b a = Ordering.rev (strCmp a b) := by
+  unfold strCmp
+  by_cases h1 : a < b
+  · have h2 : ¬ b < a := String.lt_asymm h1
+    have h3 : ¬ (b == a) = true := by
+      intro h; have := eq_of_beq h; subst this; exact String.lt_irrefl _ h1
+    simp [h1, h2, h3, Ordering.rev]
+  · by_cases h2 : (a == b) = true
+    · have := eq_of_beq h2; subst this; simp [String.lt_irrefl, Ordering.rev]
+    · have hne : a ≠ b := fun h => h2 (by simp [h])
+      have h3 : b < a := by
+        rcases String.le_total a b with h | h
+        · exfalso; exact hne (String.le_antisymm h (String.not_lt.mp h1))
+        · exact Classical.byContradiction fun hc => hne (String.le_antisymm (String.not_lt.mp hc) h)
+      have h4 : ¬ (b == a) = true := fun h => hne (eq_of_beq h).symm
+      simp [h1, h2, h3, Ordering.rev]
+
+theorem F.totalCmp_rev (a b : F) : F.totalCmp b a = Ordering.rev (F.totalCmp a b) := by
+  cases a <;> cases b <;> simp only [F.totalCmp] <;> try exact icmp_rev _ _
+  rename_i s1 m1 e1 s2 m2 e2
+  rw [Dy.cmp_rev ⟨F.snum s1 m1, e1⟩ ⟨F.snum s2 m2, e2⟩]
+  cases Dy.cmp ⟨F.snum s1 m1, e1⟩ ⟨F.snum s2 m2, e2⟩ <;> simp only [Ordering.rev]
+  exact icmp_rev _ _
+
+theorem sortCmp_rev (a b : Value) : sortCmp b a = Ordering.rev (sortCmp a b) := by
+  cases a <;> cases b <;> simp only [sortCmp] <;>
+    first | exact icmp_rev _ _ | exact F.totalCmp_rev _ _ | exact strCmp_rev _ _
+
+
+theorem icmp_le_iff {u v : Int} : icmp u v ≠ .gt ↔ u ≤ v := by
+  constructor
+  · intro h; apply Classical.byContradiction; intro hc; exact h (icmp_gt_iff.mpr (by omega))
+  · intro h hc; have := icmp_gt_iff.mp hc; omega
+
+theorem icmp_trans {u v w : Int} (h1 : icmp u v ≠ .gt) (h2 : icmp v w ≠ .gt) : icmp u w ≠ .gt := by
+  rw [icmp_le_iff] at *; omega
+
+theorem strCmp_le_iff (a b : String) : strCmp a b ≠ .gt ↔ a ≤ b := by
+  unfold strCmp
+  by_cases h1 : a < b
+  · have : a ≤ b := String.not_lt.mp (String.lt_asymm h1)
+    simp [h1, this]
+  · by_cases h2 : (a == b) = true
+    · have := eq_of_beq h2; subst this
+      have : a ≤ a := String.not_lt.mp (String.lt_irrefl _)
+      simp [String.lt_irrefl]
+    · have hba : b ≤ a := String.not_lt.mp h1
+      have : ¬ a ≤ b := fun hle => h2 (by simp [String.le_antisymm hle hba])
+      simp [h1, h2, this]
+
+theorem strCmp_trans {a b c : String} (h1 : strCmp a b ≠ .gt) (h2 : strCmp b c ≠ .gt) : strCmp a c ≠ .gt := by
+  rw [strCmp_le_iff] at *; exact String.le_trans h1 h2
+
+/-- three dyadics on one common scale -/
+theorem Dy.cmp3 (x y z : Dy) : ∃ X Y Z : Int, Dy.cmp x y = icmp X Y ∧ Dy.cmp y z = icmp Y Z ∧ Dy.cmp x z = icmp X Z := by
+  let k := min x.exp (min y.exp z.exp)
+  have h1 : k ≤ x.exp := by omega
+  have h2 : k ≤ y.exp := by omega
+  have h3 : k ≤ z.exp := by omega
+  exact ⟨x.scaled k, y.scaled k, z.scaled k, Dy.cmp_eq_of_le x y k h1 h2, Dy.cmp_eq_of_le y z k h2 h3, Dy.cmp_eq_of_le x z k h1 h3⟩
+
+theorem F.totalCmp_trans {a b c : F} (h1 : F.totalCmp a b ≠ .gt) (h2 : F.totalCmp b c ≠ .gt) : F.totalCmp a c ≠ .gt := by
+  cases a <;> cases b <;> cases c <;> simp only [F.totalCmp] at * <;>
+    try (first | (exact icmp_trans h1 h2) | (rw [icmp_le_iff] at *; simp [F.cls] at *; omega) | (simp [icmp, F.cls] at *; done))
+  · rename_i s1 m1 e1 sb s3 m3 e3
+    cases sb <;> simp [icmp, F.cls] at h1 h2
+  · rename_i s1 m1 e1 sb s3 m3 e3
+    cases sb <;> simp [icmp, F.cls] at h1 h2
+  · rename_i s1 m1 e1 s2 m2 e2 s3 m3 e3
+    obtain ⟨X, Y, Z, hxy, hyz, hxz⟩ := Dy.cmp3 ⟨F.snum s1 m1, e1⟩ ⟨F.snum s2 m2, e2⟩ ⟨F.snum s3 m3, e3⟩
+    rw [hxy] at h1; rw [hyz] at h2; rw [hxz]
+    rcases Int.lt_trichotomy X Y with hXY | hXY | hXY
+    · rcases Int.lt_trichotomy Y Z with hYZ | hYZ | hYZ
+      · rw [icmp_lt_iff.mpr (by omega : X < Z)]; simp
+      · rw [icmp_lt_iff.mpr (by omega : X < Z)]; simp
+      · rw [icmp_gt_iff.mpr hYZ] at h2; simp at h2
+    · subst hXY
+      rcases Int.lt_trichotomy X Z with hYZ | hYZ | hYZ
+      · rw [icmp_lt_iff.mpr hYZ]; simp
+      · subst hYZ
+        rw [icmp_eq_iff.mpr rfl] at h1 h2 ⊢
+        simp only at h1 h2 ⊢
+        exact icmp_trans h1 h2
+      · rw [icmp_gt_iff.mpr hYZ] at h2; simp at h2
+    · rw [icmp_gt_iff.mpr hXY] at h1; simp at h1
+
+theorem sortKind_le {a b : Value} (h : sortCmp a b ≠ .gt) : sortKind a ≤ sortKind b := by
+  cases a <;> cases b <;> simp [sortCmp, sortKind, icmp] at h ⊢
+
+theorem sortCmp_lt_of_kind {a b : Value} (h : sortKind a < sortKind b) : sortCmp a b = .lt := by
+  cases a <;> cases b <;> simp [sortKind] at h <;> simp [sortCmp, sortKind, icmp]
+
+theorem sortCmp_trans {a b c : Value} (h1 : sortCmp a b ≠ .gt) (h2 : sortCmp b c ≠ .gt) : sortCmp a c ≠ .gt := by
+  have k1 := sortKind_le h1
+  have k2 := sortKind_le h2
+  by_cases hk : sortKind a < sortKind c
+  · rw [sortCmp_lt_of_kind hk]; simp
+  · have e1 : sortKind a = sortKind b := by omega
+    have e2 : sortKind b = sortKind c := by omega
+    cases a <;> cases b <;> simp [sortKind] at e1 <;> cases c <;> simp [sortKind] at e2 <;>
+      simp only [sortCmp] at * <;>
+      first | exact icmp_trans h1 h2 | exact F.totalCmp_trans h1 h2 | exact strCmp_trans h1 h2 | (simp [icmp, sortKind])
+
+
 end Varpulis.Expr
